@@ -22,7 +22,14 @@ def scratch_repo(src=None):
   base = os.environ.get('BRAXLINT_SCRATCH') or tempfile.gettempdir()
   d = tempfile.mkdtemp(prefix='braxlint-scratch-', dir=base)
   try:
-    shutil.copytree(os.path.join(src, 'brax'), os.path.join(d, 'brax'), ignore=_ignore)
+    if os.environ.get('BRAXLINT_SCRATCH_FROM_HEAD'):
+      # developer convenience (tools/probe_patch.py while /repo's working tree is temporarily patched by another
+      # process): the committed tree instead of the working tree.  Never set by a registered command.
+      import subprocess
+      ar = subprocess.run(['git', '-C', src, 'archive', 'HEAD', 'brax'], capture_output=True, check=True).stdout
+      subprocess.run(['tar', '-x', '-C', d], input=ar, check=True)
+    else:
+      shutil.copytree(os.path.join(src, 'brax'), os.path.join(d, 'brax'), ignore=_ignore)
     yield d
   finally:
     shutil.rmtree(d, ignore_errors=True)
